@@ -51,7 +51,7 @@ func AddAttacks(g *Generated, r *rand.Rand, attackers []string) *Attack {
 		a.Victims[v.ID] = true
 		k++
 		base := fmt.Sprintf("https://%s/evil/%d-%d", ah, labelCounterNext(), k)
-		switch r.Intn(15) {
+		switch r.Intn(19) {
 		case 0: // a note of the attacker that embeds a forged copy as its parent and as its author
 			g.SetDoc(base, map[string]any{"id": base, "type": "Note", "name": "EVILNOTE", "content": "<p>own</p>", "inReplyTo": forgedCopy(v, ah, k), "attributedTo": forgedCopy(victims[r.Intn(len(victims))], ah, k)})
 			a.Forgeries += 2
@@ -107,6 +107,24 @@ func AddAttacks(g *Generated, r *rand.Rand, attackers []string) *Attack {
 			g.SetDoc(coll, map[string]any{"id": coll, "type": "OrderedCollection", "totalItems": 2.0, "first": page})
 			a.Entries = append(a.Entries, coll)
 			a.Forgeries += 2
+		case 15, 16: // an id on the victim's host that redirects to a self-consistent attacker document: that document is the attacker's, never the victim's
+			open := fmt.Sprintf("https://%s/open-redirect?own=%d-%d", v.Host, labelCounterNext(), k)
+			own := base + "/own-doc"
+			g.SetDoc(own, map[string]any{"id": own, "type": "Note", "name": "EVILOWN served by " + ah, "content": "<p>attacker's own</p>", "inReplyTo": forgedCopy(v, ah, k)})
+			g.SetRedirect(open, own)
+			g.SetDoc(base, map[string]any{"id": base, "type": "Announce", "actor": map[string]any{"type": "Person", "name": "EVILACTOR"},
+				"object": map[string]any{"id": open, "type": "Note", "name": v.Label + "X ZZFORGERY by " + ah, "content": "<p>forged</p>"}})
+			g.SetDoc(base+"/stub", map[string]any{"id": base + "/stub", "type": "Note", "name": "EVILSTUBREF", "content": "<p>x</p>", "inReplyTo": map[string]any{"id": open, "type": "Note"}})
+			a.Entries = append(a.Entries, base+"/stub")
+			a.Forgeries += 2
+		case 17, 18: // an activity carrying a complete inline copy of an object whose id does not load at the victim's host
+			ghost := fmt.Sprintf("https://%s/posts/ghost-%d", v.Host, labelCounterNext())
+			if r.Intn(2) == 0 {
+				g.SetRedirect(ghost, ghost) // loads never: a redirect loop instead of a 404
+			}
+			g.SetDoc(base, map[string]any{"id": base, "type": []string{"Create", "Announce", "Like"}[r.Intn(3)], "actor": map[string]any{"type": "Person", "name": "EVILACTOR"},
+				"object": map[string]any{"id": ghost, "type": "Note", "name": "GHOSTX ZZFORGERY by " + ah, "content": "<p>forged</p>", "published": "2024-01-01T00:00:00Z", "attributedTo": v.ID}})
+			a.Forgeries++
 		case 8: // ping-pong: the attacker's document names the victim's id, the victim's real document is fine
 			g.SetDoc(base, map[string]any{"id": v.ID, "type": "Note", "name": v.Label + "X ZZFORGERY by " + ah, "content": "<p>forged</p>", "replies": map[string]any{"id": v.ID + "/fake-replies", "type": "Collection", "items": []any{forgedCopy(v, ah, k)}}})
 			a.Forgeries += 2
